@@ -5,7 +5,7 @@
   `Nq.Bounce.inject` and the monitor's guards.
 -/
 import Nq.BounceDaemon
-import Nq.Props.C03
+import Nq.Lemmas.DaemonMain
 
 namespace Nq.Lemmas.BD
 open Nq Nq.Daemon Nq.BounceDaemon
@@ -14,6 +14,7 @@ open Nq Nq.Daemon Nq.BounceDaemon
 
 structure BV where
   todo : Bool
+  accepted : Option (Bytes × List Bytes)
   info : Option Bytes
   bounce : Option Bytes
   noted : List (Ch × Nat)
@@ -24,7 +25,7 @@ structure BV where
   lastInject : Bool
 
 def bv (ms : MsgSt) : BV :=
-  { todo := ms.todo.isSome, info := ms.info, bounce := ms.bounce, noted := ms.noted, inFile := ms.inFile,
+  { todo := ms.todo.isSome, accepted := ms.accepted, info := ms.info, bounce := ms.bounce, noted := ms.noted, inFile := ms.inFile,
     bounced := ms.bounced, discarded := ms.discarded, lost := ms.lost, lastInject := ms.lastInject }
 
 /-- well-formedness of one recorded injection -/
@@ -34,6 +35,7 @@ structure SentOK (cfg : Cfg) (v : BV) (x : Sent) : Prop where
   notdb : x.sender ≠ Bounce.DBSENDER
   len : x.paras.length = x.parts.length
   sender : ∀ info, v.info = some info → x.sender = senderOf info
+  acc : ∀ sd r, v.accepted = some (sd, r) → x.sender = sd
   intact : v.lost = false → x.parts ≠ [] ∧ x.file = fileOf x.parts
 
 /-- the history invariant of one message -/
@@ -168,8 +170,9 @@ theorem bv_feedReports (cfg : Cfg) (c : Ch) : ∀ (bs : Bytes) (s : St) (k : Nat
 /-! ### per-event preservation (on the bounce view) -/
 
 theorem sentOK_mono (cfg : Cfg) (v v' : BV) (x : Sent) (h : SentOK cfg v x)
-    (hinfo : v'.info = v.info ∨ v'.info = none) (hlost : v'.lost = false → v.lost = false) : SentOK cfg v' x := by
-  refine ⟨h.inf, h.env, h.notdb, h.len, ?_, fun hl => h.intact (hlost hl)⟩
+    (hinfo : v'.info = v.info ∨ v'.info = none) (hlost : v'.lost = false → v.lost = false)
+    (hacc : v'.accepted = v.accepted := by rfl) : SentOK cfg v' x := by
+  refine ⟨h.inf, h.env, h.notdb, h.len, ?_, fun sd r ha => h.acc sd r (by rw [← hacc]; exact ha), fun hl => h.intact (hlost hl)⟩
   intro info hi
   rcases hinfo with e | e
   · exact h.sender info (by rw [← e]; exact hi)
@@ -219,13 +222,15 @@ theorem gminv_inject_fail (cfg : Cfg) (v : BV) (gm : GMsg) (h : GMInv cfg v gm) 
 
 theorem gminv_inject_ok (cfg : Cfg) (v : BV) (gm : GMsg) (info file env body : Bytes) (h : GMInv cfg v gm)
     (ht : v.todo = false) (hi : v.info = some info) (hb : v.bounce = some file)
-    (hdb : senderOf info ≠ Bounce.DBSENDER) (hinf : isInfix file body = true) (henv : env = bounceEnvelope cfg (senderOf info)) :
+    (hdb : senderOf info ≠ Bounce.DBSENDER) (hinf : isInfix file body = true) (henv : env = bounceEnvelope cfg (senderOf info))
+    (hacc : ∀ sd r, v.accepted = some (sd, r) → senderOf info = sd) :
     GMInv cfg { v with lastInject := true }
       { gm with last := some ⟨senderOf (v.info.getD []), env, body, v.bounce.getD [], v.inFile, gm.parts⟩,
                 attempts := ⟨senderOf (v.info.getD []), env, body, v.bounce.getD [], v.inFile, gm.parts⟩ :: gm.attempts } := by
   have hsnt : SentOK cfg v ⟨senderOf (v.info.getD []), env, body, v.bounce.getD [], v.inFile, gm.parts⟩ := by
-    refine ⟨by simp [hb, hinf], by simp [hi, henv], by simp [hi, hdb], by simp [h.c3], ?_, ?_⟩
+    refine ⟨by simp [hb, hinf], by simp [hi, henv], by simp [hi, hdb], by simp [h.c3], ?_, ?_, ?_⟩
     · intro info' hi'; rw [hi] at hi'; cases hi'; simp [hi]
+    · intro sd r ha; simp only [hi, Option.getD_some]; exact hacc sd r ha
     · intro hl
       have h4 := h.c4 hl
       rw [hb] at h4
@@ -324,6 +329,9 @@ theorem gminv_todo_done (cfg : Cfg) (v : BV) (gm : GMsg) (h : GMInv cfg v gm) (h
   exact gminv_empty cfg _ a rfl rfl rfl e
 
 /-! ### every accepted event preserves the history invariant -/
+
+theorem senderOf_info (sender : Bytes) : senderOf (70 :: sender ++ [0]) = sender := by
+  simp [senderOf]
 
 theorem msg_upd_tab (s s1 : St) (m : Nat) (ms' : MsgSt) (h : s1.tab = tabSet s.tab m ms') (k : Nat) :
     s1.msg k = if k = m then ms' else s.msg k := by
@@ -569,8 +577,16 @@ theorem gstep_inv (cfg : Cfg) (s s' : St) (g : Ghost) (e : Ev) (hI : Nq.Lemmas.D
               (gminv_inject_fail cfg _ _ (hG m) ht)
           | true =>
             have h5 := hg.2.2.2.2 rfl
+            have htn : (s.msg m).todo = none := by
+              cases hx : (s.msg m).todo with
+              | none => rfl
+              | some x => have := hg.1; rw [hx] at this; simp at this
+            have hacc : ∀ sd r, (bv (s.msg m)).accepted = some (sd, r) → senderOf info = sd := by
+              intro sd r ha
+              have := (hI.msgs m).i1 htn sd r info ha hinfo
+              rw [this]; exact senderOf_info sd
             exact ginv_upd cfg s _ g _ m _ _ (msg_upd_tab s _ m _ rfl) (fun _ => rfl) hG
-              (gminv_inject_ok cfg _ _ info file env body (hG m) ht hinfo hfile hg.2.2.2.1 h5.1 h5.2)
+              (gminv_inject_ok cfg _ _ info file env body (hG m) ht hinfo hfile hg.2.2.2.1 h5.1 h5.2 hacc)
         · cases hacc
       · cases hacc
   | unlinkBounce m =>
@@ -646,15 +662,6 @@ theorem gacceptAll_inv (cfg : Cfg) : ∀ (evs : List Ev) (s : St) (g : Ghost) (s
 theorem greach_inv (cfg : Cfg) (s : St) (g : Ghost) (h : GReach cfg s g) : Nq.Lemmas.DI.Inv cfg s ∧ GInv cfg s g := by
   obtain ⟨evs, h⟩ := h
   exact gacceptAll_inv cfg evs _ _ s g (Nq.Lemmas.DI.inv_init cfg) (ginv_init cfg) h
-
-theorem greach_reach (cfg : Cfg) (s : St) (g : Ghost) (h : GReach cfg s g) : Nq.Props.C03.Reach cfg s := by
-  obtain ⟨evs, h⟩ := h
-  exact ⟨evs, gacceptAll_base cfg evs _ _ s g h⟩
-
-theorem reach_greach (cfg : Cfg) (s : St) (h : Nq.Props.C03.Reach cfg s) : ∃ g, GReach cfg s g := by
-  obtain ⟨evs, h⟩ := h
-  obtain ⟨g, hg⟩ := gacceptAll_total cfg evs {} (fun _ => {}) s h
-  exact ⟨g, evs, hg⟩
 
 /-! ### what `last = some x` means on the trace -/
 
@@ -762,9 +769,6 @@ theorem isInfix_fileOf (parts : List Bytes) (p : Bytes) (h : p ∈ parts) : isIn
 
 /-! ### bridge between `Nq.Bounce.inject` and the monitor's guards -/
 
-theorem senderOf_info (sender : Bytes) : senderOf (70 :: sender ++ [0]) = sender := by
-  simp [senderOf]
-
 theorem verp_cond (s : Bytes) :
     Bounce.VERPSUF.isSuffixOf s = true ↔ (s.length ≥ 4 ∧ (s.drop (s.length - 4) == [45, 64, 91, 93]) = true) := by
   rw [List.isSuffixOf_iff_suffix]
@@ -837,36 +841,32 @@ structure InjReady (s : St) (m : Nat) (sender bf : Bytes) : Prop where
 
 theorem acc_inject (cfg : Cfg) (s : St) (m : Nat) (sender bf env body : Bytes) (ok : Bool) (h : InjReady s m sender bf)
     (hne : sender ≠ Bounce.DBSENDER) (hg : ok = true → (isInfix bf body = true ∧ env = bounceEnvelope cfg sender)) :
-    accept cfg s (.bounceInject m ok env body) = some (s.upd m fun ms => { ms with lastInject := ok }) := by
+    ∃ s', accept cfg s (.bounceInject m ok env body) = some s' ∧ InjReady s' m sender bf ∧ (s'.msg m).lastInject = ok := by
   have hne' : ¬ sender = [35, 64, 91, 93] := hne
   simp only [accept, h.clean, h.info, h.bounce, h.todo, h.loc, h.rem]
   have hsd : ((70 :: sender ++ [0] : Bytes).drop 1).dropLast = sender := by simp
   simp only [hsd]
   rw [if_neg (by simp)]
   rw [if_pos ⟨rfl, rfl, rfl, hne', hg⟩]
-
-theorem injReady_upd (s : St) (m : Nat) (sender bf : Bytes) (b : Bool) (h : InjReady s m sender bf) :
-    InjReady (s.upd m fun ms => { ms with lastInject := b }) m sender bf ∧
-    ((s.upd m fun ms => { ms with lastInject := b }).msg m).lastInject = b := by
-  refine ⟨⟨h.clean, ?_, ?_, ?_, ?_, ?_⟩, ?_⟩ <;> rw [St.msg_upd] <;> simp [h.todo, h.loc, h.rem, h.info, h.bounce]
+  refine ⟨_, rfl, ⟨h.clean, ?_, ?_, ?_, ?_, ?_⟩, ?_⟩ <;> rw [St.msg_upd] <;> simp [h.todo, h.loc, h.rem, h.info, h.bounce]
 
 theorem acc_unlink_ok (cfg : Cfg) (s : St) (m : Nat) (sender bf : Bytes) (h : InjReady s m sender bf)
     (hne : sender ≠ Bounce.DBSENDER) (hl : (s.msg m).lastInject = true) :
-    accept cfg s (.unlinkBounce m) =
-      some (s.upd m fun ms => { ms with bounce := none, bounced := ms.inFile ++ ms.bounced, inFile := [] }) := by
+    ∃ s', accept cfg s (.unlinkBounce m) = some s' ∧ (s'.msg m).bounce = none := by
   have hne' : ¬ sender = [35, 64, 91, 93] := hne
   simp only [accept, h.clean, h.info, h.bounce, h.todo, h.loc, h.rem]
   have hsd : ((70 :: sender ++ [0] : Bytes).drop 1).dropLast = sender := by simp
   simp only [hsd]
   rw [if_neg (by simp), if_pos ⟨rfl, rfl, rfl⟩, if_neg hne', if_pos hl]
+  exact ⟨_, rfl, by rw [St.msg_upd]; simp⟩
 
 theorem acc_unlink_discard (cfg : Cfg) (s : St) (m : Nat) (bf : Bytes) (h : InjReady s m Bounce.DBSENDER bf) :
-    accept cfg s (.unlinkBounce m) =
-      some (s.upd m fun ms => { ms with bounce := none, inFile := [], discarded := true }) := by
+    ∃ s', accept cfg s (.unlinkBounce m) = some s' ∧ (s'.msg m).bounce = none := by
   simp only [accept, h.clean, h.info, h.bounce, h.todo, h.loc, h.rem]
   have hsd : ((70 :: Bounce.DBSENDER ++ [0] : Bytes).drop 1).dropLast = Bounce.DBSENDER := by simp
   simp only [hsd]
-  simp [Bounce.DBSENDER]
+  rw [if_pos (show Bounce.DBSENDER = [35, 64, 91, 93] from rfl)]
+  exact ⟨_, rfl, by rw [St.msg_upd]; simp⟩
 
 theorem bounceOf_none (bcfg : Bounce.Cfg) (date bf sender mess : Bytes) (rc : List Bytes) :
     Bounce.bounceOf bcfg date bf { sender := sender, rcpts := rc, body := mess } = none ↔
@@ -894,15 +894,15 @@ theorem inject_accepted (dcfg : Cfg) (bcfg : Bounce.Cfg) (hdb : dcfg.doublebounc
     have hd := (bounceOf_none bcfg date bf sender mess []).1 hq
     have hs : sender = Bounce.DBSENDER := hv ((decide_discard sender).1 hd)
     subst hs
-    cases f <;> simp [Bounce.inject, injectEvents, closeFails, hq, hd, acceptAll, h.bounce, acc_unlink_discard dcfg s m bf h, St.msg_upd]
+    obtain ⟨s2, a2, b2⟩ := acc_unlink_discard dcfg s m bf h
+    cases f <;> simp [Bounce.inject, injectEvents, closeFails, hq, hd, acceptAll, h.bounce, a2, b2]
   | some q =>
     obtain ⟨hne, hinf, henv⟩ := bounceOf_guard dcfg bcfg hdb date bf sender mess [] q hq
     have hd : Bounce.decideBounce sender ≠ .discard := by
       intro hh; rw [(bounceOf_none bcfg date bf sender mess []).2 hh] at hq; cases hq
-    have a1 := acc_inject dcfg s m sender bf (envBytes q) q.body true h hne (fun _ => ⟨hinf, henv⟩)
-    have a0 := acc_inject dcfg s m sender bf [] [] false h hne (fun hh => by cases hh)
-    have r1 := injReady_upd s m sender bf true h
-    have a2 := acc_unlink_ok dcfg _ m sender bf r1.1 hne r1.2
-    cases f <;> simp [Bounce.inject, injectEvents, closeFails, hq, hd, acceptAll, h.bounce, a1, a0, a2, St.msg_upd]
+    obtain ⟨s1, a1, r1, l1⟩ := acc_inject dcfg s m sender bf (envBytes q) q.body true h hne (fun _ => ⟨hinf, henv⟩)
+    obtain ⟨s0, a0, r0, _⟩ := acc_inject dcfg s m sender bf [] [] false h hne (fun hh => by cases hh)
+    obtain ⟨s2, a2, b2⟩ := acc_unlink_ok dcfg s1 m sender bf r1 hne l1
+    cases f <;> simp [Bounce.inject, injectEvents, closeFails, hq, hd, acceptAll, h.bounce, a1, a0, a2, b2, r1.bounce, r0.bounce]
 
 end Nq.Lemmas.BD
